@@ -23,6 +23,11 @@ type SeqScenario struct {
 	Setup func(w *World)
 	// Classify refines a violation (trigger / culprit) from the history.
 	Classify func(w *World, hist []Op, v *Violation)
+	// Oracles lists the oracles whose verdicts this scenario reports ("map",
+	// "fsck", "ledger", "handles", "reclaim", "diff"). A violation raised by
+	// any other oracle ends the history (its continuation is meaningless) but
+	// is not reported: each check alarms only for its own property.
+	Oracles []string
 	// Nontrivial reports whether the executed history is a non-trivial case.
 	Nontrivial func(w *World, hist []Op) bool
 }
@@ -38,6 +43,18 @@ func defaultFinal(w *World, c *Collector) *Violation {
 		return v
 	}
 	return nil
+}
+
+func (sc *SeqScenario) owns(v *Violation) bool {
+	if len(sc.Oracles) == 0 {
+		return v.Oracle == "map" || v.Oracle == ""
+	}
+	for _, o := range sc.Oracles {
+		if o == v.Oracle {
+			return true
+		}
+	}
+	return false
 }
 
 // runHistory executes one history from scratch and returns the violation (if
@@ -121,6 +138,11 @@ func (sc *SeqScenario) enumerate(c *Collector, unitBase *int) {
 					c.stateKey(string(d[:]) + sortedModel(w.Model))
 				}
 				w.Close()
+			}
+			if v != nil && !sc.owns(v) {
+				failed = true
+				c.count("foreign_oracle_verdicts_ignored", 1)
+				v = nil
 			}
 			if v != nil {
 				failed = true
